@@ -146,11 +146,11 @@ UTEST_EXTRA = ("<field number='9999' name='SampleUserField'  type='STRING' messa
                "<field number='9991' name='SampleUserField2' type='STRING' messages='NewOrderSingle:N ExecutionReport:N OrderCancelRequest:Y' />")
 
 
-def ensure_schema(name='UTEST', xml='schema/FIX42UTEST.xml', prefix='utest', san='asan', extra=UTEST_EXTRA, xmlpath=None):
+def ensure_schema(name='UTEST', xml='schema/FIX42UTEST.xml', prefix='utest', san='asan', extra=UTEST_EXTRA, xmlpath=None, second_only=True):
     """run the freshly built f8c on a schema and compile the generated sources; returns (dir, lib)"""
     f8c = ensure_f8c()
     xmlp = xmlpath or os.path.join(REPO, xml)
-    key = hash_files([xmlp, f8c] + repo_files('include/fix8'), 'schema' + name + prefix + san + (extra or ''))
+    key = hash_files([xmlp, f8c] + repo_files('include/fix8'), 'schema' + name + prefix + san + (extra or '') + ('' if second_only else 'two-pass'))
     d = os.path.join(CACHE, 'schema-%s-%s-%s' % (name, san, key))
     lib = os.path.join(d, 'lib%s.a' % prefix)
     with Lock('schema-' + name + san):
@@ -160,7 +160,8 @@ def ensure_schema(name='UTEST', xml='schema/FIX42UTEST.xml', prefix='utest', san
         tmp = d + '.tmp'
         shutil.rmtree(tmp, ignore_errors=True)
         os.makedirs(tmp)
-        cmd = [f8c, '-sVp', prefix, '-n', name, xmlp]
+        # -s = second pass only (what utests/Makefile.am does for the component-free FIX42UTEST); schemas with <components> need the precompile pass
+        cmd = [f8c, '-sVp' if second_only else '-Vp', prefix, '-n', name, xmlp]
         if extra:
             cmd += ['-F', extra]
         rc, o = sh(cmd, cwd=tmp, timeout=300)
@@ -186,7 +187,7 @@ def _gc(prefix, keep=2):
         shutil.rmtree(p, ignore_errors=True)
 
 
-def build_harness(name, san='asan', need_lib=False, need_schema=False, extra_src=(), extra_flags=(), deps=()):
+def build_harness(name, san='asan', need_lib=False, need_schema=False, extra_src=(), extra_flags=(), deps=(), schema=None):
     """compile harness/<name>.cpp against the current tree; returns path of the executable"""
     src = os.path.join(ROOT, 'harness', name + '.cpp')
     srcs = [src] + [os.path.join(ROOT, 'harness', s) for s in extra_src]
@@ -194,19 +195,20 @@ def build_harness(name, san='asan', need_lib=False, need_schema=False, extra_src
     link = []
     inc = list(INC)
     if need_schema:
-        sd, slib = ensure_schema(san=san)
+        sd, slib = ensure_schema(san=san, **(schema or {}))
         link.append(slib)
         inc.append('-I' + sd)
     if need_lib or need_schema:
         link.append(ensure_lib(san))
     dep_files = repo_files('include/fix8') + [os.path.join(REPO, d) for d in deps]
     key = hash_files(srcs + hdeps + dep_files + link, name + san + ' '.join(extra_flags))
-    d = os.path.join(CACHE, 'h-%s-%s-%s' % (name, san, key))
+    tagname = name + ('-' + schema['name'] if schema else '')
+    d = os.path.join(CACHE, 'h-%s-%s-%s' % (tagname, san, key))
     exe = os.path.join(d, name)
-    with Lock('h-' + name + san):
+    with Lock('h-' + tagname + san):
         if os.path.exists(exe):
             return exe
-        _gc('h-%s-%s-' % (name, san))
+        _gc('h-%s-%s-' % (tagname, san))
         tmp = d + '.tmp'
         shutil.rmtree(tmp, ignore_errors=True)
         os.makedirs(tmp)
@@ -557,3 +559,7 @@ def decide_stream(res, *, module, theorems, stream, harness_name, lines, oracle,
                             for i in sorted(set([0, len(lines) // 2, len(lines) - 1]))],
                    run_s=round(time.time() - t1, 2))
     return dict(lines=lines, impl=impl, model=model, aborts=aborts)
+
+
+FIX44 = dict(name='FIX44', xml='schema/FIX44.xml', prefix='fix44', extra=None, second_only=False)
+FIX44_FLAGS = ['-DSCHEMA_NS=FIX44', '-DSCHEMA_TYPES="fix44_types.hpp"', '-DSCHEMA_ROUTER="fix44_router.hpp"', '-DSCHEMA_CLASSES="fix44_classes.hpp"']
